@@ -2,6 +2,7 @@
    primitives of Bitmap.v against nth/firstn/skipn, counted loops, byte memory,
    bit facts on bytes, strictly sorted lists. *)
 Require Import VV.Base VV.BaseProofs VV.Bitmap VVgen.Consts.
+Require Export VV.BitmapSpec.
 From Coq Require Import Lia ZifyBool ZifyN ZifyNat Sorted FMapPositive Arith.
 Local Open Scope N_scope.
 Ltac Zify.zify_post_hook ::= Z.div_mod_to_equations.
@@ -94,10 +95,6 @@ Lemma lenN_rev {A} (l : list A) : bm_lenN (rev l) = bm_lenN l.
 Proof. unfold bm_lenN. rewrite rev_length. reflexivity. Qed.
 
 (* ---------------- counted loops ---------------- *)
-
-(* lo, lo+1, ..., lo+n-1 *)
-Fixpoint nseq (lo : N) (n : nat) : list N :=
-  match n with O => [] | S k => lo :: nseq (lo + 1) k end.
 
 Lemma nseq_length lo n : length (nseq lo n) = n.
 Proof. revert lo. induction n; intro; cbn; auto. Qed.
